@@ -141,6 +141,18 @@ impl<'a> Gen<'a> {
                             }
                         }
                     }
+                    // a ref= to a global element that is of a simple type (its alias names that type's struct)
+                    ExpTy::ElemRef(ns, local) => {
+                        let target = self.model.comps.iter().find(|c| c.ns == *ns && c.name == *local && c.kind == CompKind::TypedElement).cloned();
+                        if let Some(ExpTy::Named(tns, tl)) = target.and_then(|t| t.alias_of) {
+                            if let (Some(c), Some(st)) = (self.model.comp(&tns, &tl, true).cloned(), find_struct(self.ex, &tns, &tl).first().copied()) {
+                                if c.kind == CompKind::Simple {
+                                    let e = self.simple_struct_expr(st, &text, 0);
+                                    return vec![(e, Content::Text(lex))];
+                                }
+                            }
+                        }
+                    }
                     _ => {}
                 }
             }
